@@ -55,6 +55,7 @@ pub const HOSTILE: &[&str] = &[
     "hostile-block-future",
     "hostile-block-bad-gt-payload",
     "hostile-block-no-tx",
+    "hostile-block-huge-replacements",
     "issuance-tx-no-from",
     "tx-no-outputs",
     "typed-tx-odd-shape",
@@ -358,6 +359,22 @@ impl Scenario for C11 {
                                     b.sign(&creator.sk);
                                     b.generate_hash();
                                 }
+                                "huge-replacements" => {
+                                    // a placeholder-typed stub that claims to stand for millions of transactions:
+                                    // whoever builds the merkle tree of this block is asked for that many leaves.
+                                    // (3 million: enough to see, small enough for 16 parallel workers)
+                                    let mut t = Transaction::default();
+                                    t.transaction_type = TransactionType::SPV;
+                                    t.txs_replacements = 3_000_000;
+                                    t.timestamp = b.timestamp;
+                                    t.signature = [7; 64];
+                                    b.transactions.push(t);
+                                    // header commitment left empty so that the receiver computes it on arrival
+                                    b.merkle_root = [0; 32];
+                                    b.generate_pre_hash();
+                                    b.sign(&creator.sk);
+                                    b.generate_hash();
+                                }
                                 "id-zero" => {
                                     b.id = 0;
                                     reseal(&mut b, &creator, false);
@@ -505,7 +522,16 @@ impl Scenario for C11 {
                 hostile_delivered += 1;
                 r.fault(&format!("hostile_{}", mv.k), 1);
             }
+            let live0 = crate::alloc::window_start();
             let quiet = settle(&mut sim, &w, &hostile_bodies);
+            let peak = crate::alloc::window_peak(live0);
+            if hostile && peak > 128 << 20 {
+                r.violate(
+                    format!("C11|resource-exhaustion|{}", mv.k),
+                    format!("move {} ({}): handling the peer's input allocated {} MiB at its peak", mi, mv.k, peak >> 20),
+                );
+                break;
+            }
             let _ = sim.take_ext_inbox(0);
             let _ = sim.take_ext_inbox(1);
             // a block the node produced itself extends the honest chain for the scripted peer too
